@@ -587,6 +587,8 @@ pub fn eval_fcase(c: &FCase, prop: &str) -> Result<FInfo, Verdict> {
         }
         // -- expected outcome of a plan command -------------------------------
         let mut inj: Vec<Inj> = Vec::new();
+        // simulation time of each injection (a forward step_until runs several slices)
+        let mut inj_at: Vec<i64> = Vec::new();
         let mut expect_invalid = false;
         match cmd {
             Cmd::ProcessEvent { model, script, ttl } => inj.push(Inj::Direct(*model, 1, RMsg { id: eid, script: *script, ttl: *ttl, via: 0 })),
@@ -617,7 +619,32 @@ pub fn eval_fcase(c: &FCase, prop: &str) -> Result<FInfo, Verdict> {
                 }
             }
             Cmd::StepUntil(Dl::Abs(t)) if *t < now => expect_invalid = true,
+            Cmd::StepUntil(Dl::Rel(d)) => {
+                // every slice up to the target, in time order, then the final jump
+                let target = now + *d as i64;
+                let mut due: Vec<(i64, Vec<Inj>)> = Vec::new();
+                let mut rest = Vec::new();
+                for p in pending.drain(..) {
+                    if p.0 <= target {
+                        due.push(p);
+                    } else {
+                        rest.push(p);
+                    }
+                }
+                pending = rest;
+                due.sort_by_key(|p| p.0); // stable: scheduling order within one time
+                for (t, v) in due {
+                    for x in v {
+                        inj.push(x);
+                        inj_at.push(t);
+                    }
+                }
+                now = target;
+            }
             _ => {}
+        }
+        while inj_at.len() < inj.len() {
+            inj_at.push(now);
         }
         // models the driver-side task(s) of this command deliver to
         let mut injected_to: Vec<u16> = Vec::new();
@@ -637,7 +664,8 @@ pub fn eval_fcase(c: &FCase, prop: &str) -> Result<FInfo, Verdict> {
             }
         }
         let mut e = new_exp(&b);
-        for x in &inj {
+        for (x, at) in inj.iter().zip(inj_at.iter()) {
+            let now = *at;
             match x {
                 Inj::Direct(m, k, msg) => expand(&b, *m, *k, msg, now, &mut e),
                 Inj::Source(s, msg) => {
@@ -801,9 +829,16 @@ pub fn fcase_strategy(exec: BoxedStrategy<Exec>, spin: bool) -> BoxedStrategy<FC
                     proptest::collection::vec(post_strategy(nm, nsrc), 1..7),
                     proptest::option::weighted(0.4, 0u8..8),
                     proptest::collection::vec((0u8..10, -6i64..0), 0..3),
+                    proptest::collection::vec((0u8..10, 0u64..5), 0..3),
                 )
-                    .prop_map(move |(fault, post, drop_after, invalids)| {
+                    .prop_map(move |(fault, post, drop_after, invalids, forwards)| {
                         let mut base = base.clone();
+                        // forward step_until calls (several slices and/or a final jump to an
+                        // event-free time, where a clock lag can also strike)
+                        for (pos, d) in forwards {
+                            let p = (pos as usize).min(base.cmds.len());
+                            base.cmds.insert(p, Cmd::StepUntil(Dl::Rel(d)));
+                        }
                         // non-fatal errors: step_until into the past, at generated positions
                         for (pos, back) in invalids {
                             let p = (pos as usize).min(base.cmds.len());
